@@ -411,8 +411,15 @@ func (e *Engine) roleSource(v ssa.Value, role string, depth int) bool {
 // subject/resource/action/context.  The defaults handed to resolveEvalFields are the request's own getters, not a
 // value carried over from the previous item.
 func ruleEvalDefaultsAreRequestLevel(e *Engine, r *Reporter, fns []*ssa.Function) {
-	r.Rule("authzen-item-defaults-request-level", "the default subject, resource, action and context passed to resolveEvalFields for each evaluation item are the request's own GetSubject/GetResource/GetAction/GetContext values (loop-invariant), never the previous item's resolved values", 4)
-	want := []string{"", "GetSubject", "GetResource", "GetAction", "GetContext"}
+	r.Rule("authzen-item-defaults-request-level", "the defaults passed to resolveEvalFields for each evaluation item never derive from an earlier result of resolveEvalFields: an item that omits a field falls back to the request-level value, not to the previous item's", 2)
+	isResolve := func(v ssa.Value) bool {
+		c, ok := v.(*ssa.Call)
+		if !ok {
+			return false
+		}
+		o := calleeObj(c)
+		return o != nil && o.Name() == "resolveEvalFields"
+	}
 	n := 0
 	for _, f := range fns {
 		eachInstr(f, true, func(in ssa.Instruction) {
@@ -420,20 +427,14 @@ func ruleEvalDefaultsAreRequestLevel(e *Engine, r *Reporter, fns []*ssa.Function
 			if !ok || !isCallNamed(in, "resolveEvalFields") {
 				return
 			}
-			args := c.Common().Args
-			if len(args) != 5 {
-				return
-			}
-			for i := 1; i <= 4; i++ {
-				n++
-				okArg := false
-				if call, isCall := unwrap(args[i]).(*ssa.Call); isCall {
-					if o := calleeObj(call); o != nil && o.Name() == want[i] {
-						okArg = true
-					}
+			n++
+			bad := ""
+			for i, a := range c.Common().Args {
+				if derivesFrom(a, isResolve) {
+					bad = fmt.Sprintf("argument %d (%s)", i, describe_(a))
 				}
-				r.Check(okArg, fmt.Sprintf("%s | resolveEvalFields default %s #%d", fname(topLevel(f)), strings.TrimPrefix(want[i], "Get"), n), e.instrPos(in), "request."+want[i]+"()", "the default passed for "+strings.TrimPrefix(want[i], "Get")+" is "+describe_(args[i])+", not the request-level value: an item that omits the field inherits the previous item's value instead of the request's")
 			}
+			r.Check(bad == "", fmt.Sprintf("%s | resolveEvalFields defaults #%d", fname(topLevel(f)), n), e.instrPos(in), "defaults are loop-invariant request values", "the defaults handed to resolveEvalFields carry over from the previous item: "+bad+" — an item that omits the field inherits the previous item's value instead of the request's")
 		})
 	}
 	if n == 0 {
